@@ -3,10 +3,16 @@
 //        harness pool  <engine> <depth> 0 [part nparts]          (C02_POOLED=1: timer records recycled by the loop's object pool)
 //        harness heap  <engine> <n> [part nparts]                (one-shot timers, one removal before anything fired)
 //        harness heapb <engine> <n> [part nparts] [pooled]       (persistent timers, removal at tick k, top level or inside a callback)
+//        harness late  <engine> [pooled]                         (one pass after a lateness of 1e2 / 1e3 / 1e5 ms)
 #include "hist/hist.h"
+#include "probe.h"
 #include <tbox/event/loop.h>
 #include <tbox/event/timer_event.h>
 #include <tbox/event/common_loop.h>
+#if __has_include(<tbox/event/timer_event_impl.h>)
+#include <tbox/event/timer_event_impl.h>
+#define C02_HAVE_IMPL 1
+#endif
 #include <tbox/eventx/timer_pool.cpp>      // included (not linked) so that TimerPool::Impl's own cabinet can be read for the state key
 #include <time.h>
 #include <sys/time.h>
@@ -16,13 +22,22 @@
 #include <errno.h>
 
 // ---------------------------------------------------------------------------------------------
-// seams: virtual clock (only while code under test runs: the engine's deadline keeps reading the real clock) and a
-// simulated back-end sleep (only inside run-for: a positive poll timeout advances the virtual clock by exactly that much).
-static long long vnow = 1000000;     // virtual milliseconds
+// seams: virtual clocks (only while code under test runs: the engine's deadline keeps reading the real clock) and a
+// simulated back-end sleep (only inside run-for: a positive poll timeout advances the virtual clock).
+// The monotonic clock is vnow ms + vsub us; the wall clock (CLOCK_REALTIME, gettimeofday) is the same plus 1.7e12 ms, so a
+// computation that mixes the two clocks, or takes time_since_epoch() of the wrong one, is off by decades.
+static long long vnow = 1000000;     // virtual milliseconds (what the floor-millisecond model sees)
+static int vsub = 0;                 // microseconds inside the current millisecond
+static const long long WALL_OFFSET_MS = 1700000000000LL;
 static bool g_virt = false;
 struct Virt { Virt() { g_virt = true; } ~Virt() { g_virt = false; } };
-extern "C" int clock_gettime(clockid_t id, struct timespec *ts) { if (!g_virt) return (int)syscall(SYS_clock_gettime, id, ts); ts->tv_sec = vnow / 1000; ts->tv_nsec = (vnow % 1000) * 1000000; return 0; }
-extern "C" int gettimeofday(struct timeval *tv, void *tz) { if (!g_virt) return (int)syscall(SYS_gettimeofday, tv, tz); if (tv) { tv->tv_sec = vnow / 1000; tv->tv_usec = (vnow % 1000) * 1000; } return 0; }
+static void clock_reset() { vnow = 1000000; vsub = 0; }
+static void tick_us(int us) { vsub += us; vnow += vsub / 1000; vsub %= 1000; }
+extern "C" int clock_gettime(clockid_t id, struct timespec *ts) {
+  if (!g_virt) return (int)syscall(SYS_clock_gettime, id, ts);
+  long long m = vnow + ((id == CLOCK_REALTIME || id == CLOCK_REALTIME_COARSE) ? WALL_OFFSET_MS : 0);
+  ts->tv_sec = m / 1000; ts->tv_nsec = (m % 1000) * 1000000 + (long)vsub * 1000; return 0; }
+extern "C" int gettimeofday(struct timeval *tv, void *tz) { if (!g_virt) return (int)syscall(SYS_gettimeofday, tv, tz); long long m = vnow + WALL_OFFSET_MS; if (tv) { tv->tv_sec = m / 1000; tv->tv_usec = (m % 1000) * 1000 + vsub; } return 0; }
 static double real_now_s() { struct timespec ts; syscall(SYS_clock_gettime, CLOCK_MONOTONIC, &ts); return ts.tv_sec + ts.tv_nsec * 1e-9; }
 static std::function<void(long long)> g_on_wait;     // argument: the timeout the loop asked for in ms, -1 = "block for ever"
 extern "C" int epoll_wait(int epfd, struct epoll_event *ev, int maxev, int timeout) {
@@ -48,53 +63,93 @@ typedef std::chrono::milliseconds ms;
 
 static void pass(Loop *loop) { loop->runNext([] {}); loop->runLoop(Loop::Mode::kOnce); }
 
+// ---------------------------------------------------------------------------------------------
+// Private members are read ONLY for the state key (never by the oracle) and through SFINAE probes: if a refactoring renames one,
+// the harness still builds, says "@INFO missing-member ..." and the key falls back to the op history (no merging at all).
+VF_PROBE(sp_exit_timer_)
+VF_PROBE(token_)
 // shape of a cabinet: cells (used / free-list link), head of the free list
-template <class C> static std::string cab_shape(const C &cab, bool with_id) {
+template <class C> static auto cab_shape_i(const C &cab, bool with_id, int) -> decltype((void)cab.cells_.begin()->next_free, (void)cab.cells_.begin()->id, (void)cab.first_free_, (void)cab.last_id_, std::string()) {
   std::string s = "["; char b[48];
   for (auto &c : cab.cells_) { if (c.id != 0) s += "u,"; else { snprintf(b, 48, "f%ld,", c.next_free == std::numeric_limits<size_t>::max() ? -1L : (long)c.next_free); s += b; } }
   snprintf(b, 48, "]h%ld", cab.first_free_ == std::numeric_limits<size_t>::max() ? -1L : (long)cab.first_free_); s += b;
   if (with_id) { snprintf(b, 48, "i%zu", (size_t)cab.last_id_); s += b; }
   return s;
 }
+template <class C> static std::string cab_shape_i(const C &, bool, long) { vf_note_missing("Cabinet::cells_/first_free_/last_id_"); return "[?]"; }
+template <class C> static std::string cab_shape(const C &cab, bool with_id) { return cab_shape_i(cab, with_id, 0); }
 // the loop's timer heap in ARRAY order (two layouts of the same multiset are different states) + the timer cabinet's shape
-static std::string heap_key(CommonLoop *cl) {
-  std::string c; char b[64];
-  for (auto *x : cl->timer_min_heap_) { snprintf(b, 64, "%lld/%llu/%llu,", (long long)x->expired - vnow, (unsigned long long)x->interval, (unsigned long long)x->repeat); c += b; }
+template <class L> static auto heap_key_i(L *cl, int) -> decltype((void)(*cl->timer_min_heap_.begin())->expired, (void)(*cl->timer_min_heap_.begin())->interval, (void)(*cl->timer_min_heap_.begin())->repeat, (void)cl->timer_cabinet_.size(), std::string()) {
+  std::string c; char b[96];
+  for (auto *x : cl->timer_min_heap_) { snprintf(b, 96, "%lld/%llu/%llu,", (long long)x->expired - vnow, (unsigned long long)x->interval, (unsigned long long)x->repeat); c += b; }
   c += "#" + std::to_string(cl->timer_cabinet_.size()) + cab_shape(cl->timer_cabinet_, false);
   return c;
 }
+template <class L> static std::string heap_key_i(L *, long) { vf_note_missing("CommonLoop::timer_min_heap_/timer_cabinet_"); return "H?"; }
+static std::string heap_key(CommonLoop *cl) { return heap_key_i(cl, 0); }
+template <class P> static auto pool_cab_i(P *p, int) -> decltype((void)p->impl_->timers_, std::string()) { return cab_shape(p->impl_->timers_, true); }
+template <class P> static std::string pool_cab_i(P *, long) { vf_note_missing("TimerPool::impl_->timers_"); return "?"; }
+// experiment control (a write): de-pool the loop's timer records so that ASan sees stale ones; without the member the runs stay pooled
+template <class L> static auto depool_i(L *cl, int) -> decltype((void)(cl->timer_object_pool_.keep_number_ = 0), true) { cl->timer_object_pool_.keep_number_ = 0; return true; }
+template <class L> static bool depool_i(L *, long) { vf_note_missing("CommonLoop::timer_object_pool_.keep_number_ (timer records stay pooled)"); return false; }
+static void depool(CommonLoop *cl) { depool_i(cl, 0); }
+static long token_pos(TimerEvent *t) {
+#ifdef C02_HAVE_IMPL
+  return (long)VF_GET(token_, *static_cast<TimerEventImpl *>(t), tbox::cabinet::Token()).pos();
+#else
+  (void)t; vf_note_missing("TimerEventImpl::token_"); return -1;
+#endif
+}
 
 // ---------------------------------------------------------------------------------------------
-enum K { ENABLE, DISABLE, DESTROY, ADVANCE, SCRIPT, REINIT, TICK, RUNFOR };
+enum K { ENABLE, DISABLE, DESTROY, ADVANCE, SCRIPT, REINIT, TICK, RUNFOR, TICKUS };
 enum A { NONE, SLOW, DIS_SELF, DIS_OTHER, DESTROY_OTHER, REENABLE_SELF, ENABLE_OTHER, RESTART_OTHER, REINIT_SELF, REINIT_EN_SELF, REINIT_OTHER, REINIT_EN_OTHER, EXIT_LOOP };
 enum R { R_SAME, R_IV, R_MODE, R_LEGACY };
-struct Op { int k, t, a, o, d, r; };     // script: timer t's callback first lets d ms pass (a slow callback), then does a to o (reinit kind r)
-static const char *kN[] = {"enable", "disable", "destroy", "advance+pass", "script", "reinit", "tick", "exitLoop+runForever"};
+// script: timer t's callback (t == number of timers: the callback that every pass queues with runNext, run after the timer scan of the
+// same iteration) first lets d ms pass (a slow callback), then does a to o (reinit kind r)
+struct Op { int k, t; long long a; int o, d, r; };
+static const char *kN[] = {"enable", "disable", "destroy", "advance+pass", "script", "reinit", "tick", "exitLoop+runForever", "tick-us"};
 static const char *aN[] = {"none", "slow", "disable-self", "disable-other", "destroy-other", "reenable-self", "enable-other", "restart-other", "reinit-self", "reinit+enable-self", "reinit-other", "reinit+enable-other", "exitLoop(2)"};
 static const char *rN[] = {"same-params", "other-interval", "other-mode", "interval0+1"};
 
-struct Cfg { int nt; int iv[4]; bool per[4]; int reinit_mask; bool reinit_kinds; bool runfor; bool pooled; int nadv; int adv[5]; };
+struct Cfg { int nt; long long iv[4]; bool per[4]; int reinit_mask; bool reinit_kinds; bool runfor; bool pooled; int nadv; long long adv[5];
+             bool rich; bool pairs; bool tickus; int lazy_mask; int nrun; long long run[3]; };
+static const long long P31 = 1LL << 31, P32 = 1LL << 32, P33 = 1LL << 33, DAY = 86400000LL;
 static const Cfg CFGS[] = {
-  {3, {2, 3, 2, 0}, {true, false, true, false}, 3, false, false, false, 5, {0, 1, 2, 3, 7}},
-  {4, {1, 5, 3, 2}, {true, false, true, false}, 3, false, false, false, 5, {0, 1, 2, 3, 7}},
-  {4, {2, 2, 2, 2}, {true, true, false, false}, 3, false, false, false, 5, {0, 1, 2, 3, 7}},
-  // 3: re-initialisation configuration: initialize() with the same parameters / another interval / the other mode, top level and inside callbacks
-  {2, {2, 3, 0, 0}, {true, false, false, false}, 3, true, false, false, 5, {0, 1, 2, 3, 7}},
-  // 4: sleeping configuration: exitLoop(T) + runLoop(kForever) with the back-end's sleep simulated exactly; timer records pooled
-  {3, {2, 3, 3, 0}, {true, false, true, false}, 0, false, true, true, 2, {0, 3}},
+  {3, {2, 3, 2, 0}, {true, false, true, false}, 3, false, false, false, 5, {0, 1, 2, 3, 7}, true, true, true, 0, 0, {0, 0, 0}},
+  {4, {1, 5, 3, 2}, {true, false, true, false}, 3, false, false, false, 5, {0, 1, 2, 3, 7}, true, true, false, 0, 0, {0, 0, 0}},
+  {4, {2, 2, 2, 2}, {true, true, false, false}, 3, false, false, false, 5, {0, 1, 2, 3, 7}, true, true, false, 0, 0, {0, 0, 0}},
+  // 3: re-initialisation configuration: initialize() with the same parameters / another interval / the other mode, top level and inside callbacks;
+  //    t1 starts life UNINITIALISED (enable()/disable() before initialize() must leave it silent)
+  {2, {2, 3, 0, 0}, {true, false, false, false}, 3, true, false, false, 5, {0, 1, 2, 3, 7}, true, true, true, 2, 0, {0, 0, 0}},
+  // 4: sleeping configuration: exitLoop(T) + runLoop(kForever) with the back-end's sleep simulated; timer records pooled
+  {3, {2, 3, 3, 0}, {true, false, true, false}, 0, false, true, true, 2, {0, 3, 0, 0, 0}, true, true, true, 0, 3, {1, 4, 7}},
+  // 5..10: magnitude configurations (pass lane): a one-shot and a persistent timer with intervals around 2^31, 2^32, 2^33 ms and of 30 / 60 / 75 days,
+  //    beside a 2 ms one-shot; the clock is advanced to 2 ms before, and exactly to, the smaller deadline
+  {3, {P31 + 1, P31 - 1, 2, 0}, {false, true, false, false}, 0, false, false, false, 4, {0, 2, P31 - 3, P31 - 1, 0}, false, false, false, 0, 0, {0, 0, 0}},
+  {3, {P32 + 3, P32 - 1, 2, 0}, {false, true, false, false}, 0, false, false, false, 4, {0, 2, P32 - 3, P32 - 1, 0}, false, false, false, 0, 0, {0, 0, 0}},
+  {3, {P33 + 1, P33 - 1, 2, 0}, {false, true, false, false}, 0, false, false, false, 4, {0, 2, P33 - 3, P33 - 1, 0}, false, false, false, 0, 0, {0, 0, 0}},
+  {3, {30 * DAY, 30 * DAY + 1, 2, 0}, {false, true, false, false}, 0, false, false, false, 4, {0, 2, 30 * DAY - 2, 30 * DAY, 0}, false, false, false, 0, 0, {0, 0, 0}},
+  {3, {60 * DAY, 60 * DAY - 1, 2, 0}, {false, true, false, false}, 0, false, false, false, 4, {0, 2, 60 * DAY - 3, 60 * DAY - 1, 0}, false, false, false, 0, 0, {0, 0, 0}},
+  {3, {75 * DAY, 75 * DAY + 1, 2, 0}, {false, true, false, false}, 0, false, false, false, 4, {0, 2, 75 * DAY - 2, 75 * DAY, 0}, false, false, false, 0, 0, {0, 0, 0}},
+  // 11: DEFAULT OFF (C02_BIG_SLEEP=1): the sleeping configuration with an interval / exit wait in [2^31, 2^32) ms. On the unchanged tree the epoll
+  //    back-end passes getWaitTime()'s int64 to epoll_wait's int: the time-out turns negative and the loop blocks for ever with the timer pending.
+  {2, {P31 + 1, 3, 0, 0}, {false, true, false, false}, 0, false, true, true, 2, {0, 3, 0, 0, 0}, false, false, false, 0, 2, {4, P31 + 5, 0}},
 };
 static const int NCFG = sizeof(CFGS) / sizeof(CFGS[0]);
+static const int CFG_BIG_SLEEP = 11;
 
-static bool basic_script(const Op &o) { return o.k == SCRIPT && o.d == 0 && (o.a == DIS_SELF || o.a == DIS_OTHER || o.a == DESTROY_OTHER || o.a == REENABLE_SELF || o.a == ENABLE_OTHER || o.a == RESTART_OTHER); }
+static bool basic_script(const Op &o, int nt) { return o.k == SCRIPT && o.t < nt && o.d == 0 && (o.a == DIS_SELF || o.a == DIS_OTHER || o.a == DESTROY_OTHER || o.a == REENABLE_SELF || o.a == ENABLE_OTHER || o.a == RESTART_OTHER); }
 
 static int g_part = 0, g_nparts = 1;
 static int timer_mode(const std::string &eng, size_t depth, int config) {
-  const Cfg &C = CFGS[config]; const int NT = C.nt; const int *IV0 = C.iv; const bool *PER0 = C.per;
+  const Cfg &C = CFGS[config]; const int NT = C.nt; const long long *IV0 = C.iv; const bool *PER0 = C.per;
   hx::Explorer<Op> ex; ex.name = "timer-" + eng + "-cfg" + std::to_string(config) + "-part" + std::to_string(g_part); ex.deadline_s = hx::deadline_from_env(600); ex.part = g_part; ex.nparts = g_nparts;
-  ex.show = [](const Op &o) { char b[96];
-    if (o.k == SCRIPT) { int n = snprintf(b, 96, "script(t%d:", o.t); if (o.d) n += snprintf(b + n, 96 - n, "slow%d+", o.d); n += snprintf(b + n, 96 - n, "%s", aN[o.a]); if (o.a >= REINIT_SELF && o.a <= REINIT_EN_OTHER) n += snprintf(b + n, 96 - n, "[%s]", rN[o.r]); snprintf(b + n, 96 - n, "->t%d)", o.o); }
-    else if (o.k == ADVANCE) snprintf(b, 96, "advance(%d)+pass", o.a); else if (o.k == TICK) snprintf(b, 96, "tick(%d)", o.a); else if (o.k == RUNFOR) snprintf(b, 96, "exitLoop(%d)+runLoop(forever)", o.a);
-    else if (o.k == REINIT) snprintf(b, 96, "reinit(t%d,%s)", o.t, rN[o.r]); else snprintf(b, 96, "%s(t%d)", kN[o.k], o.t); return std::string(b); };
+  ex.show = [NT](const Op &o) { char b[128];
+    if (o.k == SCRIPT) { int n = o.t == NT ? snprintf(b, 128, "script(runNext-of-every-pass:") : snprintf(b, 128, "script(t%d:", o.t); if (o.d) n += snprintf(b + n, 128 - n, "slow%d+", o.d); n += snprintf(b + n, 128 - n, "%s", aN[o.a]); if (o.a >= REINIT_SELF && o.a <= REINIT_EN_OTHER) n += snprintf(b + n, 128 - n, "[%s]", rN[o.r]); snprintf(b + n, 128 - n, "->t%d)", o.o); }
+    else if (o.k == ADVANCE) snprintf(b, 128, "advance(%lld)+pass", o.a); else if (o.k == TICK) snprintf(b, 128, "tick(%lld)", o.a); else if (o.k == TICKUS) snprintf(b, 128, "tick(%lldus)", o.a);
+    else if (o.k == RUNFOR) snprintf(b, 128, "exitLoop(%lld)+runLoop(forever%s)", o.a, o.o ? ",every-sleep-cut-to-half" : "");
+    else if (o.k == REINIT) snprintf(b, 128, "reinit(t%d,%s)", o.t, rN[o.r]); else snprintf(b, 128, "%s(t%d)", kN[o.k], o.t); return std::string(b); };
   // all callback scripts of one timer; the "basic" ones (no slow callback, no reinit) may also be combined in pairs
   auto scripts_of = [&](int t, bool basic_only, std::vector<Op> &m) {
     std::vector<int> kinds; if (C.reinit_kinds) { kinds = {R_SAME, R_IV, R_MODE}; } else kinds = {R_SAME};
@@ -104,7 +159,7 @@ static int timer_mode(const std::string &eng, size_t depth, int config) {
     m.push_back({SCRIPT, t, SLOW, t, 2, 0}); m.push_back({SCRIPT, t, REENABLE_SELF, t, 2, 0});
     for (int r : kinds) { m.push_back({SCRIPT, t, REINIT_SELF, t, 0, r}); m.push_back({SCRIPT, t, REINIT_EN_SELF, t, 0, r}); if (C.reinit_kinds) m.push_back({SCRIPT, t, REINIT_EN_SELF, t, 2, r}); }
     for (int o = 0; o < NT; o++) if (o != t) {
-      m.push_back({SCRIPT, t, ENABLE_OTHER, o, 2, 0}); m.push_back({SCRIPT, t, RESTART_OTHER, o, 2, 0});
+      for (int a : {DIS_OTHER, DESTROY_OTHER, ENABLE_OTHER, RESTART_OTHER}) m.push_back({SCRIPT, t, a, o, 2, 0});     // the victim may have become overdue inside the pass
       for (int r : kinds) { m.push_back({SCRIPT, t, REINIT_OTHER, o, 0, r}); m.push_back({SCRIPT, t, REINIT_EN_OTHER, o, 0, r}); if (C.reinit_kinds) m.push_back({SCRIPT, t, REINIT_EN_OTHER, o, 2, r}); } }
     if (C.runfor) m.push_back({SCRIPT, t, EXIT_LOOP, t, 0, 0});
   };
@@ -113,27 +168,47 @@ static int timer_mode(const std::string &eng, size_t depth, int config) {
     for (int t = 0; t < NT; t++) { m.push_back({ENABLE, t, 0, 0, 0, 0}); m.push_back({DISABLE, t, 0, 0, 0, 0}); m.push_back({DESTROY, t, 0, 0, 0, 0}); }
     for (int i = 0; i < C.nadv; i++) m.push_back({ADVANCE, 0, C.adv[i], 0, 0, 0});
     m.push_back({TICK, 0, 3, 0, 0, 0});                 // the clock moves on but the loop does not run: the next op meets overdue timers
-    if (C.runfor) for (int T : {1, 4, 7}) m.push_back({RUNFOR, 0, T, 0, 0, 0});
+    if (C.tickus) m.push_back({TICKUS, 0, 400, 0, 0, 0});   // sub-millisecond clock positions (x.4, x.8, (x+1).2 ...)
+    if (C.runfor) { for (int i = 0; i < C.nrun; i++) m.push_back({RUNFOR, 0, C.run[i], 0, 0, 0}); for (int i = 1; i < C.nrun; i++) if (C.run[i] < 1000) m.push_back({RUNFOR, 0, C.run[i], 1, 0, 0}); }
     for (int t = 0; t < NT; t++) if (C.reinit_mask & (1 << t)) { if (C.reinit_kinds) { for (int r : {R_SAME, R_IV, R_MODE}) m.push_back({REINIT, t, 0, 0, 0, r}); } else m.push_back({REINIT, t, 0, 0, 0, R_LEGACY}); }
-    if (h.empty()) for (int t = 0; t < NT; t++) scripts_of(t, false, m);
-    else if (h.size() == 1 && basic_script(h[0])) for (int t = h[0].t + 1; t < NT; t++) scripts_of(t, true, m);     // pairs: on two different timers, order irrelevant
+    if (h.empty()) { for (int t = 0; t < NT; t++) scripts_of(t, !C.rich, m);
+      if (C.rich) for (int o = 0; o < NT; o++) for (int a : {DIS_OTHER, DESTROY_OTHER, ENABLE_OTHER, RESTART_OTHER}) m.push_back({SCRIPT, NT, a, o, 0, 0}); }
+    else if (C.pairs && h.size() == 1 && basic_script(h[0], NT)) for (int t = h[0].t + 1; t < NT; t++) scripts_of(t, true, m);     // pairs: on two different timers, order irrelevant
     return m; };
   ex.run = [&](const std::vector<Op> &h, std::string &viol) {
     Virt virt;
-    vnow = 1000000; Loop *loop = Loop::New(eng); auto cl = static_cast<CommonLoop *>(loop);
-    if (!C.pooled) cl->timer_object_pool_.keep_number_ = 0;   // de-pool: ASan sees stale Timer records
-    TimerEvent *tm[4]; bool alive[4]; int act[4] = {0, 0, 0, 0}, oth[4] = {0, 0, 0, 0}, slow[4] = {0, 0, 0, 0}, rk[4] = {0, 0, 0, 0}; int IV[4]; bool PER[4]; long fires[4] = {0, 0, 0, 0};
+    clock_reset(); Loop *loop = Loop::New(eng); auto cl = static_cast<CommonLoop *>(loop);
+    if (!C.pooled) depool(cl);
+    TimerEvent *tm[4]; bool alive[4], inited[4]; int act[5] = {0, 0, 0, 0, 0}, oth[5] = {0, 0, 0, 0, 0}, slow[5] = {0, 0, 0, 0, 0}, rk[5] = {0, 0, 0, 0, 0}; long long IV[4]; bool PER[4]; long fires[4] = {0, 0, 0, 0};
     struct M { bool en = false; long long dl = 0; }; M md[4]; long long last_dl = -1;
     long long now0 = vnow;                 // the clock when the current loop pass woke up
     long long exit_dl = -1; bool exit_used = false, exit_ambig = false, in_runfor = false;
-    for (int t = 0; t < NT; t++) { IV[t] = IV0[t]; PER[t] = PER0[t]; tm[t] = loop->newTimerEvent("t"); tm[t]->initialize(ms(IV[t]), PER[t] ? Event::Mode::kPersist : Event::Mode::kOneshot); alive[t] = true; }
-    auto m_enable = [&](int t) { if (!md[t].en) { md[t].en = true; md[t].dl = vnow + IV[t]; } };      // a (re-)enable starts a fresh full interval from the clock's value NOW
+    for (int t = 0; t < NT; t++) { IV[t] = IV0[t]; PER[t] = PER0[t]; tm[t] = loop->newTimerEvent("t"); alive[t] = true; inited[t] = !(C.lazy_mask & (1 << t));
+      if (inited[t]) tm[t]->initialize(ms(IV[t]), PER[t] ? Event::Mode::kPersist : Event::Mode::kOneshot); }
+    auto m_enable = [&](int t) { if (inited[t] && !md[t].en) { md[t].en = true; md[t].dl = vnow + IV[t]; } };      // a (re-)enable starts a fresh full interval from the clock's value NOW; before initialize() it does nothing
     auto m_disable = [&](int t) { md[t].en = false; };
     auto do_reinit = [&](int t, int r) {   // initialize() leaves the timer disabled, whatever the parameters
       switch (r) { case R_SAME: break; case R_IV: IV[t] = (IV[t] == IV0[t]) ? IV0[t] + 1 : IV0[t]; break; case R_MODE: PER[t] = !PER[t]; break; default: IV[t] = IV0[t] + 1; }
-      tm[t]->initialize(ms(IV[t]), PER[t] ? Event::Mode::kPersist : Event::Mode::kOneshot); m_disable(t); };
+      tm[t]->initialize(ms(IV[t]), PER[t] ? Event::Mode::kPersist : Event::Mode::kOneshot); inited[t] = true; m_disable(t); };
     auto undue = [&] { for (int t = 0; t < NT; t++) if (viol.empty() && alive[t] && md[t].en && md[t].dl <= now0) viol = "due-timer-did-not-fire";   // no period skipped, however late the loop woke
       if (exit_dl >= 0 && exit_dl <= now0 && !in_runfor) exit_dl = -1; };
+    // number of callbacks a wake-up at vnow+delta owes (the BFS skips ops that would owe more than a few dozen: a 3 ms timer and a 30-day advance)
+    auto owed = [&](long long delta) { long long n = 0; for (int t = 0; t < NT; t++) if (alive[t] && md[t].en && md[t].dl <= vnow + delta) n += PER[t] ? (vnow + delta - md[t].dl) / IV[t] + 1 : 1; return n; };
+    auto action = [&](int t, int a, int o, int r) {      // what a callback does; t = acting timer (NT: the runNext callback)
+      switch (a) {
+        case DIS_SELF: tm[t]->disable(); m_disable(t); break;
+        case DIS_OTHER: if (alive[o]) { tm[o]->disable(); m_disable(o); } break;
+        case DESTROY_OTHER: if (alive[o]) { m_disable(o); alive[o] = false; delete tm[o]; tm[o] = nullptr; } break;
+        case REENABLE_SELF: tm[t]->disable(); m_disable(t); tm[t]->enable(); m_enable(t); break;
+        case ENABLE_OTHER: if (alive[o]) { tm[o]->enable(); m_enable(o); } break;
+        case RESTART_OTHER: if (alive[o]) { tm[o]->disable(); m_disable(o); tm[o]->enable(); m_enable(o); } break;
+        case REINIT_SELF: do_reinit(t, r); break;
+        case REINIT_EN_SELF: do_reinit(t, r); tm[t]->enable(); m_enable(t); break;
+        case REINIT_OTHER: if (alive[o]) do_reinit(o, r); break;
+        case REINIT_EN_OTHER: if (alive[o]) { do_reinit(o, r); tm[o]->enable(); m_enable(o); } break;
+        case EXIT_LOOP: if (!exit_used) { exit_used = true; if (in_runfor && exit_dl >= 0 && exit_dl <= now0) exit_ambig = true;   // the old exit timer is due in this very pass: it may or may not have fired already
+            loop->exitLoop(ms(2)); exit_dl = vnow + 2; } break;
+      } };
     for (int t = 0; t < NT; t++) tm[t]->setCallback([&, t] {
       if (!viol.empty()) return;
       if (!alive[t]) { viol = "callback-on-destroyed-timer"; return; }
@@ -142,22 +217,10 @@ static int timer_mode(const std::string &eng, size_t depth, int config) {
       for (int u = 0; u < NT; u++) if (alive[u] && md[u].en && md[u].dl < md[t].dl) { viol = "not-in-deadline-order"; return; }
       if (md[t].dl < last_dl) { viol = "deadline-order-regress"; return; } last_dl = md[t].dl; fires[t]++;
       if (PER[t]) md[t].dl += IV[t]; else { md[t].en = false; if (tm[t]->isEnabled()) { viol = "oneshot-still-enabled-in-its-callback"; return; } }
-      int o = oth[t];
       vnow += slow[t];                      // a slow callback: the clock moves while the pass is still running
-      switch (act[t]) {
-        case DIS_SELF: tm[t]->disable(); m_disable(t); break;
-        case DIS_OTHER: if (alive[o]) { tm[o]->disable(); m_disable(o); } break;
-        case DESTROY_OTHER: if (alive[o]) { m_disable(o); alive[o] = false; delete tm[o]; tm[o] = nullptr; } break;
-        case REENABLE_SELF: tm[t]->disable(); m_disable(t); tm[t]->enable(); m_enable(t); break;
-        case ENABLE_OTHER: if (alive[o]) { tm[o]->enable(); m_enable(o); } break;
-        case RESTART_OTHER: if (alive[o]) { tm[o]->disable(); m_disable(o); tm[o]->enable(); m_enable(o); } break;
-        case REINIT_SELF: do_reinit(t, rk[t]); break;
-        case REINIT_EN_SELF: do_reinit(t, rk[t]); tm[t]->enable(); m_enable(t); break;
-        case REINIT_OTHER: if (alive[o]) do_reinit(o, rk[t]); break;
-        case REINIT_EN_OTHER: if (alive[o]) { do_reinit(o, rk[t]); tm[o]->enable(); m_enable(o); } break;
-        case EXIT_LOOP: if (!exit_used) { exit_used = true; if (in_runfor && exit_dl >= 0 && exit_dl <= now0) exit_ambig = true;   // the old exit timer is due in this very pass: it may or may not have fired already
-            loop->exitLoop(ms(2)); exit_dl = vnow + 2; } break;
-      } });
+      action(t, act[t], oth[t], rk[t]); });
+    // one loop pass; its runNext callback (run after the timer scan of the same iteration, the loop still running) may carry an action
+    auto do_pass = [&] { loop->runNext([&] { if (viol.empty() && act[NT] != NONE) action(NT, act[NT], oth[NT], 0); }); loop->runLoop(Loop::Mode::kOnce); };
     for (auto &o : h) { if (!viol.empty()) break;
       switch (o.k) {
         case ENABLE: if (alive[o.t]) { tm[o.t]->enable(); m_enable(o.t); } break;
@@ -165,62 +228,73 @@ static int timer_mode(const std::string &eng, size_t depth, int config) {
         case DESTROY: if (alive[o.t]) { m_disable(o.t); alive[o.t] = false; delete tm[o.t]; tm[o.t] = nullptr; } break;
         case REINIT: if (alive[o.t]) do_reinit(o.t, o.r); break;
         case TICK: vnow += o.a; break;
-        case ADVANCE: vnow += o.a; now0 = vnow; last_dl = -1; pass(loop); undue(); break;
-        case RUNFOR: {   // exitLoop(T) then runLoop(kForever): the loop decides itself how long to sleep; the sleep is exact
+        case TICKUS: tick_us((int)o.a); break;
+        case ADVANCE: if (owed(o.a) > 64) break; vnow += o.a; now0 = vnow; last_dl = -1; do_pass(); undue(); break;
+        case RUNFOR: {   // exitLoop(T) then runLoop(kForever): the loop decides itself how long to sleep
+          if (owed(o.a) > 64) break;
+          const bool half = o.o != 0;      // every sleep is cut short (a spurious wake-up): the loop must work out the remaining time again
           loop->exitLoop(ms(o.a)); exit_dl = vnow + o.a; exit_ambig = false; in_runfor = true; int wakeups = 0, zero_run = 0; bool first = true;
           g_on_wait = [&](long long to) {
             if (!first) undue(); first = false;
-            if (++wakeups > 200) { if (viol.empty()) viol = "loop-did-not-return-after-exit-wait"; cl->stopLoop(); return; }
-            if (to < 0) { if (viol.empty()) viol = "loop-sleeps-for-ever-with-a-timer-pending"; cl->stopLoop(); }     // the exit timer (at least) is pending during run-for
-            else if (to > 0) { vnow += to; zero_run = 0; }
+            if (++wakeups > 200) { if (viol.empty()) viol = "loop-did-not-return-after-exit-wait"; loop->exitLoop(ms(0)); return; }
+            if (to < 0) { if (viol.empty()) viol = "loop-sleeps-for-ever-with-a-timer-pending"; loop->exitLoop(ms(0)); }     // the exit timer (at least) is pending during run-for
+            else if (to > 0) {
+              // the loop may sleep less than the time to the earliest deadline, never more: asking for more is choosing to be late
+              long long first_dl = exit_dl; for (int t = 0; t < NT; t++) if (alive[t] && md[t].en && (first_dl < 0 || md[t].dl < first_dl)) first_dl = md[t].dl;
+              if (viol.empty() && first_dl >= 0 && to > std::max(0LL, first_dl - vnow)) viol = "loop-asks-to-sleep-past-the-earliest-deadline";
+              vnow += half ? (to + 1) / 2 : to; zero_run = 0; }
             else if (++zero_run >= 8) { vnow += 1; zero_run = 0; }      // polling without sleeping: real time passes anyway
             now0 = vnow; last_dl = -1; };
           loop->runLoop(Loop::Mode::kForever); g_on_wait = nullptr; in_runfor = false; undue();
           if (viol.empty() && !exit_ambig && now0 < exit_dl) viol = "loop-returned-before-exit-wait-elapsed";
           exit_dl = -1;
         } break;
-        case SCRIPT: act[o.t] = o.a; oth[o.t] = o.o; slow[o.t] = o.d; rk[o.t] = o.r; break; }
+        case SCRIPT: act[o.t] = (int)o.a; oth[o.t] = o.o; slow[o.t] = o.d; rk[o.t] = o.r; break; }
       for (int t = 0; t < NT && viol.empty(); t++) if (alive[t] && tm[t]->isEnabled() != md[t].en) viol = "isEnabled-mismatch";
     }
-    std::string c; for (int t = 0; t < NT; t++) { char b[96]; snprintf(b, 96, "%d%d%d:%lld:%d:%d.%d.%d.%d|", (int)alive[t], (int)md[t].en, (int)PER[t], md[t].en ? md[t].dl - vnow : 0, IV[t], act[t], oth[t], slow[t], rk[t]); c += b; }
-    { char b[64]; snprintf(b, 64, "x%lld.%d.%d|", exit_dl >= 0 ? exit_dl - vnow : -1, (int)exit_used, (int)(cl->sp_exit_timer_ != nullptr)); c += b; }
+    std::string c; for (int t = 0; t < NT; t++) { char b[128]; snprintf(b, 128, "%d%d%d%d:%lld:%lld:%d.%d.%d.%d@%ld|", (int)alive[t], (int)inited[t], (int)md[t].en, (int)PER[t], md[t].en ? md[t].dl - vnow : 0, IV[t], act[t], oth[t], slow[t], rk[t], alive[t] && md[t].en ? token_pos(tm[t]) : -1L); c += b; }
+    { char b[96]; snprintf(b, 96, "x%lld.%d.%d|n%d.%d|u%d|", exit_dl >= 0 ? exit_dl - vnow : -1, (int)exit_used, (int)(VF_GET(sp_exit_timer_, *cl, (TimerEvent *)nullptr) != nullptr), act[NT], oth[NT], vsub); c += b; }
     c += heap_key(cl);
+    if (vf_any_missing()) { c += "!"; for (auto &o : h) c += ex.show(o); }      // a probed member is gone: do not merge states the key can no longer tell apart
     for (int t = 0; t < NT; t++) if (alive[t]) delete tm[t];
     pass(loop); delete loop; return c; };
   ex.explore(depth); return 0;
 }
 
 // ---------------------------------------------------------------------------------------------
-enum PK { P_EVERY, P_AFTER, P_CANCEL, P_ADVANCE, P_CLEANUP, P_AT, P_TICK };
-enum PA { PA_NONE, PA_CANCEL_SELF, PA_CANCEL_OLDER, PA_CLEANUP_THEN_AFTER, PA_ADD_AFTER, PA_SLOW_ADD_AFTER };
-static const char *paN[] = {"none", "cancel-self", "cancel-older", "cleanup-then-doAfter", "add-doAfter", "slow2-then-add-doAfter"};
+enum PK { P_EVERY, P_AFTER, P_CANCEL, P_ADVANCE, P_CLEANUP, P_AT, P_TICK, P_TICKUS, P_DESTROY_POOL };
+enum PA { PA_NONE, PA_CANCEL_SELF, PA_CANCEL_OLDER, PA_CLEANUP_THEN_AFTER, PA_ADD_AFTER, PA_SLOW_ADD_AFTER, PA_ADD_EVERY, PA_CANCEL_NEWER };
+static const char *paN[] = {"none", "cancel-self", "cancel-older", "cleanup-then-doAfter", "add-doAfter", "slow2-then-add-doAfter", "add-doEvery", "cancel-newer"};
 struct POp { int k, a, b; };
 static int pool_mode(const std::string &eng, size_t depth) {
   using tbox::eventx::TimerPool;
   const bool pooled = hx::env_int("C02_POOLED", 0) != 0;
   hx::Explorer<POp> ex; ex.name = "pool-" + eng + (__cplusplus >= 201402L ? "-cxx14" : "-cxx11") + (pooled ? "-pooled" : "") + "-part" + std::to_string(g_part); ex.deadline_s = hx::deadline_from_env(600); ex.part = g_part; ex.nparts = g_nparts;
-  ex.show = [](const POp &o) { char b[64]; switch (o.k) { case P_EVERY: snprintf(b, 64, "doEvery(%d,%s)", o.a, paN[o.b]); break; case P_AFTER: snprintf(b, 64, "doAfter(%d,%s)", o.a, paN[o.b]); break; case P_AT: snprintf(b, 64, "doAt(now+%d,%s)", o.a, paN[o.b]); break; case P_CANCEL: snprintf(b, 64, "cancel(#%d)", o.a); break; case P_ADVANCE: snprintf(b, 64, "advance(%d)+pass", o.a); break; case P_TICK: snprintf(b, 64, "tick(%d)", o.a); break; default: snprintf(b, 64, "cleanup"); } return std::string(b); };
+  ex.show = [](const POp &o) { char b[64]; switch (o.k) { case P_EVERY: snprintf(b, 64, "doEvery(%d,%s)", o.a, paN[o.b]); break; case P_AFTER: snprintf(b, 64, "doAfter(%d,%s)", o.a, paN[o.b]); break; case P_AT: snprintf(b, 64, "doAt(now+%d,%s)", o.a, paN[o.b]); break; case P_CANCEL: snprintf(b, 64, "cancel(#%d)", o.a); break; case P_ADVANCE: snprintf(b, 64, "advance(%d)+pass", o.a); break; case P_TICK: snprintf(b, 64, "tick(%d)", o.a); break; case P_TICKUS: snprintf(b, 64, "tick(%dus)", o.a); break; case P_DESTROY_POOL: snprintf(b, 64, "delete-pool"); break; default: snprintf(b, 64, "cleanup"); } return std::string(b); };
   ex.menu = [&](const std::vector<POp> &h) {
-    std::vector<POp> m; int issued = 0; for (auto &o : h) if (o.k == P_EVERY || o.k == P_AFTER || o.k == P_AT) issued++;
-    if (issued < 3) for (int iv : {1, 2}) for (int a = 0; a <= PA_SLOW_ADD_AFTER; a++) { m.push_back({P_EVERY, iv, a}); m.push_back({P_AFTER, iv, a}); }
-    if (issued < 3) { m.push_back({P_AT, 2, PA_NONE}); m.push_back({P_AT, 1, PA_CANCEL_OLDER}); }      // absolute wall-clock time point (the virtual clock serves every clock id)
-    for (int i = 0; i < issued; i++) m.push_back({P_CANCEL, i, 0});
+    std::vector<POp> m; int issued = 0; bool gone = false; for (auto &o : h) { if (o.k == P_EVERY || o.k == P_AFTER || o.k == P_AT) issued++; if (o.k == P_DESTROY_POOL) gone = true; }
+    if (!gone) {
+      if (issued < 3) for (int iv : {1, 2}) for (int a = 0; a <= PA_SLOW_ADD_AFTER; a++) { m.push_back({P_EVERY, iv, a}); m.push_back({P_AFTER, iv, a}); }
+      if (issued < 3) for (int a : {PA_ADD_EVERY, PA_CANCEL_NEWER}) { m.push_back({P_EVERY, 1, a}); m.push_back({P_AFTER, 1, a}); }      // a persistent timer born in a callback; cancelling a timer that has not fired yet
+      if (issued < 3) { m.push_back({P_AT, 2, PA_NONE}); m.push_back({P_AT, 1, PA_CANCEL_OLDER}); }      // absolute wall-clock time point (wall clock = monotonic clock + 1.7e12 ms)
+      for (int i = 0; i < issued; i++) m.push_back({P_CANCEL, i, 0}); }
     for (int d : {0, 1, 2, 5}) m.push_back({P_ADVANCE, d, 0});
-    m.push_back({P_TICK, 2, 0});
-    m.push_back({P_CLEANUP, 0, 0}); return m; };
+    m.push_back({P_TICK, 2, 0}); m.push_back({P_TICKUS, 400, 0});
+    if (!gone) { m.push_back({P_CLEANUP, 0, 0}); m.push_back({P_DESTROY_POOL, 0, 0}); }      // the pool dies with timers pending: none of them may ever fire
+    return m; };
   ex.run = [&](const std::vector<POp> &h, std::string &viol) {
     Virt virt;
-    vnow = 1000000; Loop *loop = Loop::New(eng); auto cl = static_cast<CommonLoop *>(loop); if (!pooled) cl->timer_object_pool_.keep_number_ = 0;
+    clock_reset(); Loop *loop = Loop::New(eng); auto cl = static_cast<CommonLoop *>(loop); if (!pooled) depool(cl);
     TimerPool *pool = new TimerPool(loop);
     struct T { TimerPool::TimerToken tok; bool persist; int iv; bool live; long long dl; long fires; int act; };
-    std::vector<T> ts; long long last_dl = -1, now0 = vnow; int cleanups = 0;
+    std::vector<T> ts; long long last_dl = -1, now0 = vnow; int cleanups = 0; std::string pool_shape;
     // kind: 0 doEvery, 1 doAfter, 2 doAt(system_clock::now()+iv)
     std::function<int(int, int, int)> add = [&](int kind, int iv, int act) -> int {
       bool persist = kind == 0;
       int idx = (int)ts.size(); ts.push_back(T{TimerPool::TimerToken(), persist, iv, true, vnow + iv, 0, act});
       auto cb = [&, idx] {
         if (!viol.empty()) return; T &x = ts[idx];
-        if (!x.live) { viol = "pool-callback-after-cancel-or-cleanup"; return; }
+        if (!x.live) { viol = pool ? "pool-callback-after-cancel-or-cleanup" : "pool-callback-after-the-pool-was-destroyed"; return; }
         if (vnow < x.dl) { viol = "pool-fired-early"; return; }
         for (auto &u : ts) if (u.live && u.dl < x.dl) { viol = "pool-not-in-deadline-order"; return; }
         if (x.dl < last_dl) { viol = "pool-deadline-order-regress"; return; } last_dl = x.dl; x.fires++;
@@ -228,8 +302,10 @@ static int pool_mode(const std::string &eng, size_t depth) {
         switch (ts[idx].act) {
           case PA_CANCEL_SELF: { bool r = pool->cancel(ts[idx].tok); if (ts[idx].persist) { if (!r) viol = "pool-cancel-self-false"; ts[idx].live = false; } } break;
           case PA_CANCEL_OLDER: if (idx > 0) { bool was = ts[idx - 1].live; bool r = pool->cancel(ts[idx - 1].tok); if (r != was) viol = "pool-cancel-answer-disagrees-with-liveness"; ts[idx - 1].live = false; } break;
+          case PA_CANCEL_NEWER: if (idx + 1 < (int)ts.size()) { bool was = ts[idx + 1].live; bool r = pool->cancel(ts[idx + 1].tok); if (r != was) viol = "pool-cancel-answer-disagrees-with-liveness"; ts[idx + 1].live = false; } break;
           case PA_CLEANUP_THEN_AFTER: pool->cleanup(); cleanups++; for (auto &u : ts) u.live = false; add(1, 1, PA_NONE); break;
           case PA_ADD_AFTER: if (ts.size() < 6) add(1, 1, PA_NONE); break;
+          case PA_ADD_EVERY: if (ts.size() < 6) add(0, 1, PA_NONE); break;
           case PA_SLOW_ADD_AFTER: vnow += 2; if (ts.size() < 6) add(1, 1, PA_NONE); break;      // the clock moves inside the callback: the new timer's interval starts at the new time
         } };
       TimerPool::TimerToken tok = kind == 0 ? pool->doEvery(ms(iv), cb) : kind == 1 ? pool->doAfter(ms(iv), cb) : pool->doAt(std::chrono::system_clock::now() + ms(iv), cb);
@@ -242,7 +318,9 @@ static int pool_mode(const std::string &eng, size_t depth) {
         case P_AFTER: top.push_back(add(1, o.a, o.b)); break;
         case P_CANCEL: { T &x = ts[top[o.a]]; bool r = pool->cancel(x.tok); if (r != x.live) viol = "pool-cancel-answer-disagrees-with-liveness"; x.live = false; } break;
         case P_CLEANUP: pool->cleanup(); cleanups++; for (auto &u : ts) u.live = false; break;
+        case P_DESTROY_POOL: pool_shape = pool_cab_i(pool, 0); delete pool; pool = nullptr; for (auto &u : ts) u.live = false; break;
         case P_TICK: vnow += o.a; break;
+        case P_TICKUS: tick_us(o.a); break;
         case P_ADVANCE: vnow += o.a; now0 = vnow; last_dl = -1; pass(loop);
           for (auto &u : ts) if (viol.empty() && u.live && u.dl <= now0) viol = "pool-due-timer-did-not-fire";
           break; }
@@ -250,7 +328,8 @@ static int pool_mode(const std::string &eng, size_t depth) {
     std::string c; for (auto &u : ts) { char b[64]; snprintf(b, 64, "%d%d:%lld:%d:%d|", (int)u.live, (int)u.persist, u.live ? u.dl - vnow : 0, u.iv, u.act); c += b; }
     c += heap_key(cl);
     // the pool's own cabinet: cells, free list, id counter (cancel and cleanup leave different shapes), number of cleanups so far
-    c += "P" + cab_shape(pool->impl_->timers_, true) + "c" + std::to_string(std::min(cleanups, 2));
+    c += "P" + (pool ? pool_cab_i(pool, 0) : "gone" + pool_shape) + "c" + std::to_string(std::min(cleanups, 2)) + "u" + std::to_string(vsub);
+    if (vf_any_missing()) { c += "!"; for (auto &o : h) c += ex.show(o); }
     delete pool; pass(loop); delete loop; return c; };
   ex.explore(depth); return 0;
 }
@@ -265,7 +344,7 @@ static int heap_mode(const std::string &eng, int n, int part, int nparts) {
   do { if ((int)(pi++ % (size_t)nparts) != part) continue;
     if (real_now_s() > deadline) { printf("@CAP heap lane %s n=%d part %d: deadline reached after %zu runs\n", eng.c_str(), n, part, runs); break; }
     for (int victim = 0; victim < n; victim++) for (int how = 0; how < 2; how++) {
-      vnow = 1000000; Loop *loop = Loop::New(eng); auto cl = static_cast<CommonLoop *>(loop); cl->timer_object_pool_.keep_number_ = 0;
+      clock_reset(); Loop *loop = Loop::New(eng); auto cl = static_cast<CommonLoop *>(loop); depool(cl);
       std::vector<TimerEvent *> tm(n); std::vector<long long> fired_at(n, -1); std::string viol; long long last_dl = -1;
       for (int i = 0; i < n; i++) { tm[i] = loop->newTimerEvent("h"); tm[i]->initialize(ms(perm[i]), Event::Mode::kOneshot);
         tm[i]->setCallback([&, i] { if (i == victim) viol = "heap-removed-timer-fired"; if (fired_at[i] >= 0) viol = "heap-oneshot-fired-twice"; fired_at[i] = vnow;
@@ -296,7 +375,7 @@ static int heapb_mode(const std::string &eng, int n, int part, int nparts, bool 
     for (int victim = 0; victim < n; victim++) for (int k = 1; k <= n; k++) for (int how = 0; how < 2; how++) for (int place = 0; place < 2; place++) {
       if (how == 1 && place == 0 && k > 1) continue;      // destroying at top level is the plain heap lane's subject; kept for k=1 only (after the first firings)
       const int NTICK = k + n + 3;                        // long enough for every timer, and the re-enabled victim, to fire again after the removal
-      vnow = T0; Loop *loop = Loop::New(eng); auto cl = static_cast<CommonLoop *>(loop); if (!pooled) cl->timer_object_pool_.keep_number_ = 0;
+      clock_reset(); Loop *loop = Loop::New(eng); auto cl = static_cast<CommonLoop *>(loop); if (!pooled) depool(cl);
       std::vector<TimerEvent *> tm(n); std::vector<bool> en(n, true); std::vector<long long> dl(n); std::string viol; long long last_dl = -1; int tick = 0; bool removed = false; int removed_at = -1;
       auto remove = [&] { removed = true; removed_at = tick; en[victim] = false; if (how == 0) tm[victim]->disable(); else { delete tm[victim]; tm[victim] = nullptr; } };
       for (int i = 0; i < n; i++) { tm[i] = loop->newTimerEvent("h"); tm[i]->initialize(ms(perm[i]), Event::Mode::kPersist);
@@ -321,12 +400,48 @@ static int heapb_mode(const std::string &eng, int n, int part, int nparts, bool 
   printf("@STAT states=%zu transitions=%zu executions=%zu violations=%zu\n", runs, passes, runs, bad); return 0;
 }
 
+// late lane (engine I): every non-empty subset of {persistent 1 ms, persistent 7 ms, persistent 1000 ms, one-shot 5 ms}, enabled together or 3 ms
+// apart, then the loop wakes L = 1e2 / 1e3 / 1e5 ms late (clock moved at once, or the last 3 ms by a tick and 400 us more), ONE pass, then the same
+// lateness and one more pass. Reference: per-timer deadline, += interval per firing, so the pass owes exactly floor((now-t)/d) callbacks per
+// persistent timer, interleaved in deadline order; nothing due may be left.
+static int late_mode(const std::string &eng, bool pooled) {
+  Virt virt; const double deadline = real_now_s() + hx::env_int("VERIF_DEADLINE_S", 600);
+  const int N = 4; const long long IVS[N] = {1, 7, 1000, 5}; const bool PERS[N] = {true, true, true, false};
+  size_t runs = 0, cbs = 0, bad = 0; bool capped = false;
+  for (int mask = 1; mask < (1 << N) && !capped; mask++) for (int stagger = 0; stagger < 2; stagger++) for (long long L : {100LL, 1000LL, 100000LL}) for (int how = 0; how < 2; how++) {
+    if (real_now_s() > deadline) { printf("@CAP late lane %s: deadline reached after %zu runs\n", eng.c_str(), runs); capped = true; break; }
+    clock_reset(); Loop *loop = Loop::New(eng); auto cl = static_cast<CommonLoop *>(loop); if (!pooled) depool(cl);
+    TimerEvent *tm[N]; bool en[N]; long long dl[N], t_en[N], fires[N]; std::string viol; long long last_dl = -1;
+    for (int i = 0; i < N; i++) { en[i] = false; dl[i] = 0; fires[i] = 0; t_en[i] = 0; tm[i] = loop->newTimerEvent("l"); tm[i]->initialize(ms(IVS[i]), PERS[i] ? Event::Mode::kPersist : Event::Mode::kOneshot);
+      tm[i]->setCallback([&, i] { cbs++; if (!viol.empty()) return;
+        if (!en[i]) { viol = "late-disabled-timer-fired"; return; }
+        if (vnow < dl[i]) { viol = "late-fired-early"; return; }
+        for (int u = 0; u < N; u++) if (en[u] && dl[u] < dl[i]) { viol = "late-not-in-deadline-order"; return; }
+        if (dl[i] < last_dl) { viol = "late-not-in-deadline-order"; return; } last_dl = dl[i]; fires[i]++;
+        if (PERS[i]) dl[i] += IVS[i]; else en[i] = false; }); }
+    for (int i = 0; i < N; i++) if (mask & (1 << i)) { tm[i]->enable(); en[i] = true; dl[i] = vnow + IVS[i]; t_en[i] = vnow; if (stagger) vnow += 3; }
+    for (int round = 0; round < 2 && viol.empty(); round++) {
+      if (how == 0) vnow += L; else { vnow += L - 3; vnow += 3; tick_us(400); }
+      last_dl = -1; pass(loop);
+      for (int i = 0; i < N && viol.empty(); i++) { if (en[i] && dl[i] <= vnow) viol = "late-due-timer-did-not-fire";
+        if ((mask & (1 << i)) && PERS[i] && fires[i] != (vnow - t_en[i]) / IVS[i]) viol = "late-firing-count-is-not-floor((now-t)/d)";
+        if ((mask & (1 << i)) && !PERS[i] && fires[i] != 1) viol = "late-oneshot-did-not-fire-exactly-once"; } }
+    runs++;
+    if (!viol.empty() && bad++ < 3) printf("@VIOL sig=%s :: %s%s: enable timers mask=%d of {every 1 ms, every 7 ms, every 1000 ms, once after 5 ms}%s, let %lld ms pass, one loop pass, %lld ms more, one pass; firings %lld/%lld/%lld/%lld\n", viol.c_str(), eng.c_str(), pooled ? " (pooled records)" : "", mask, stagger ? " 3 ms apart" : " at the same time", L, L, fires[0], fires[1], fires[2], fires[3]);
+    if (runs == 1 || (mask == 15 && L == 100000 && stagger == 1 && how == 0)) printf("@SAMPLE late lane %s: mask=%d lateness %lld ms twice: firings %lld/%lld/%lld/%lld\n", eng.c_str(), mask, L, fires[0], fires[1], fires[2], fires[3]);
+    for (auto *t : tm) delete t; pass(loop); delete loop;
+  }
+  printf("@STAT states=%zu transitions=%zu executions=%zu violations=%zu\n", runs, cbs, runs, bad); return 0;
+}
+
 int main(int argc, char **argv) {
   std::string mode = argc > 1 ? argv[1] : "timer", eng = argc > 2 ? argv[2] : "epoll";
   hx::install_crash_reporter("C02-crash");
   if (mode == "heap") { hx::set_current("heap lane"); return heap_mode(eng, argc > 3 ? atoi(argv[3]) : 6, argc > 4 ? atoi(argv[4]) : 0, argc > 5 ? atoi(argv[5]) : 1); }
   if (mode == "heapb") { hx::set_current("heap lane B"); return heapb_mode(eng, argc > 3 ? atoi(argv[3]) : 6, argc > 4 ? atoi(argv[4]) : 0, argc > 5 ? atoi(argv[5]) : 1, argc > 6 && atoi(argv[6]) != 0); }
+  if (mode == "late") { hx::set_current("late lane"); return late_mode(eng, argc > 3 && atoi(argv[3]) != 0); }
   size_t depth = argc > 3 ? atoi(argv[3]) : 5; int cfg = argc > 4 ? atoi(argv[4]) : 0; g_part = argc > 5 ? atoi(argv[5]) : 0; g_nparts = argc > 6 ? atoi(argv[6]) : 1;
   if (cfg < 0 || cfg >= NCFG) cfg = 0;
+  if (cfg == CFG_BIG_SLEEP && !hx::env_int("C02_BIG_SLEEP", 0)) { printf("@INFO configuration %d is switched off (set C02_BIG_SLEEP=1)\n@STAT states=0 transitions=0 executions=0\n", cfg); return 0; }
   return mode == "pool" ? pool_mode(eng, depth) : timer_mode(eng, depth, cfg);
 }
